@@ -222,6 +222,23 @@ PERIODIC = {
    "calls": {"self._set_next_execution_timestep": ("fn", "PeriodicAgent._set_next_execution_timestep")}},
  ]}
 
+# ---- pre-timestep chain ----
+BASE = "src/primaite/simulator/network/hardware/base.py"
+FS = "src/primaite/simulator/file_system/file_system.py"
+PRETICK = {
+ "enum_files": [],
+ "methods": [
+  {"path": FS, "cls": "FileSystem", "fn": "pre_timestep", "ret": "unit", "drop_params": ["timestep"],
+   "calls": {"super().pre_timestep": ("erase",), "for:self.folders.values():folder.pre_timestep(timestep)": ("emit", 1, [])}},
+  {"path": BASE, "cls": "Node", "fn": "pre_timestep", "ret": "unit", "drop_params": ["timestep"],
+   "calls": {"super().pre_timestep": ("erase",),
+             "for:self.network_interfaces.values():network_interface.pre_timestep(timestep=timestep)": ("emit", 1, []),
+             "for:self.processes:self.processes[process_id].pre_timestep(timestep=timestep)": ("emit", 2, []),
+             "for:self.services:self.services[service_id].pre_timestep(timestep=timestep)": ("emit", 3, []),
+             "for:self.applications:self.applications[application_id].pre_timestep(timestep=timestep)": ("emit", 4, []),
+             "self.file_system.pre_timestep": ("emit", 5, [])}},
+ ]}
+
 GROUPS = {
  "software": dict(SOFTWARE, gen="Gen/GenSoftware.v", eq="Proofs/GenEqSoftware.vo"),
  "killchain": dict(KILLCHAIN, gen="Gen/GenKillChain.v", eq="Proofs/GenEqKillChain.vo"),
@@ -235,6 +252,7 @@ GROUPS = {
  "routetable": dict(ROUTE, gen="Gen/GenRoute.v", eq="Proofs/GenEqRoute.vo"),
  "acllist": dict(ACLLIST, gen="Gen/GenAclList.v", eq="Proofs/GenEqAclList.vo"),
  "periodic": dict(PERIODIC, gen="Gen/GenPeriodic.v", eq="Proofs/GenEqPeriodic.vo"),
+ "pretick": dict(PRETICK, gen="Gen/GenPreTick.v", eq="Proofs/GenEqPreTick.vo"),
 }
 for _g in GROUPS.values():
     _g["functions"] = ["%s.%s" % (m["cls"], m["fn"]) for m in _g["methods"]]
